@@ -1,10 +1,13 @@
 """Which families and generated modules decide which property."""
 import fam_text
+import fam_stream
 
 _split = fam_text.Split()
 _codec = fam_text.CodecFam()
 
-FAMILIES = {f.name: f for f in [_split, _codec]}
+_stream = fam_stream.Stream()
+
+FAMILIES = {f.name: f for f in [_split, _codec, _stream]}
 
 PROPS = {
     'C16': dict(families=[_split], trusted_base=[
